@@ -4,19 +4,25 @@ package main
 // stdin: line protocol
 //   idx <name>                     index for subsequent batches (default vidx)
 //   cfg card <n>                   writer.SetCardinalityLimit
+//   cfg pqs <0|1>                  config.SetPQSEnabled (persistent-query results; the testing config has them ON)
+//   pqwait                         wait until no background persistent-query write (search.writePqmrFilesWrapper) is running,
+//                                  then hand the queued back-fill requests to the writer (VerifDrainPqsRequests); prints nothing
 //   batch <hexjson> <hexjson> ...  one ProcessIndexRequestPle call
 //   flush                          flush every WIP buffer to its segment file
 //   rotate                         force segment rotation
 //   waitsync                       (restart on an existing dir, env VERIF_WAIT_SYNC=1) wait for the startup sync
 // env: VERIF_DATA_DIR=<dir> use this data dir and keep it; VERIF_CRASH_AT / VERIF_CRASH_LOG see c07_crash.go
 //   q <from> <size> <start> <end> <hex SPL>   run a query; prints one JSON line
+//   qd <from> <size> <start> <end> <hex SPL>  run a query, print nothing
 // stdout: one JSON line per q: {"recs":[{...}], "measure":[...], "groupByCols":[...], "measureFunctions":[...], "total":n, "err":"..."}
 import (
 	"bufio"
+	"bytes"
 	"encoding/hex"
 	"encoding/json"
 	"fmt"
 	"os"
+	"runtime"
 	"strconv"
 	"strings"
 	"sync"
@@ -27,6 +33,26 @@ import (
 	eswriter "github.com/siglens/siglens/pkg/es/writer"
 	"github.com/siglens/siglens/pkg/segment/writer"
 )
+
+// e2ePqWait: the raw search of a rotated segment starts `go writePqmrFilesWrapper(…)` BEFORE the query returns; the
+// goroutine registers the result in memory (pqs.AddPersistentQueryResult) and queues a back-fill request.  Quiescence =
+// no goroutine stack names the wrapper any more (exact: the `go` statement has executed when the query has answered).
+func e2ePqWait() {
+	buf := make([]byte, 1<<20)
+	deadline := time.Now().Add(5 * time.Second)
+	for time.Now().Before(deadline) {
+		n := runtime.Stack(buf, true)
+		if n == len(buf) {
+			buf = make([]byte, 2*len(buf))
+			continue
+		}
+		if !bytes.Contains(buf[:n], []byte("search.writePqmrFilesWrapper")) && !bytes.Contains(buf[:n], []byte("search.writePqmrFiles(")) {
+			break
+		}
+		time.Sleep(time.Millisecond)
+	}
+	writer.VerifDrainPqsRequests()
+}
 
 func e2eWorkerMain() {
 	syncDone := installSyncWatch() // no-op unless VERIF_WAIT_SYNC is set (c07_crash.go)
@@ -57,6 +83,14 @@ func e2eWorkerMain() {
 				n, _ := strconv.Atoi(f[2])
 				writer.SetCardinalityLimit(uint16(n))
 			}
+			if f[1] == "pqs" {
+				config.SetPQSEnabled(f[2] == "1")
+			}
+		case "pqwait":
+			e2ePqWait()
+		case "sleep": // sleep <ms> (manual probes only)
+			ms, _ := strconv.Atoi(f[1])
+			time.Sleep(time.Duration(ms) * time.Millisecond)
 		case "batch":
 			now := uint64(time.Now().UnixMilli())
 			var ples []*writer.ParsedLogEvent
@@ -177,7 +211,7 @@ func e2eWorkerMain() {
 			out.Write(b)
 			out.WriteByte('\n')
 			out.Flush()
-		case "q":
+		case "q", "qd":
 			from, _ := strconv.Atoi(f[1])
 			size, _ := strconv.Atoi(f[2])
 			start, _ := strconv.ParseUint(f[3], 10, 64)
@@ -205,6 +239,9 @@ func e2eWorkerMain() {
 			}
 			if sfLogCap {
 				res["logErrors"] = sfDrainLogErrors() // error-level log lines emitted while this query ran
+			}
+			if f[0] == "qd" {
+				continue // a query run in the middle of a history (it registers as a persistent query): answer discarded
 			}
 			b, _ := json.Marshal(res)
 			out.Write(b)
